@@ -41,4 +41,5 @@ d79e38c C32 a subscriber while value-log GC rewrites a file or a merge operator 
 0f2d549 C11 a backup restored through KVLoader instead of DB.Load, then a commit
 7f35a71 C28 InMemory database and a value over the value threshold but shorter than 1 KiB
 de49e21 C28 a banned namespace and a key of exactly NamespaceOffset+8 bytes
+3d68e02 C17 a MANIFEST cut inside a change set that is longer than the rest of the file
 L
